@@ -121,3 +121,27 @@ Example ex_unescape_js : unescape false (escape_final_path false ex_name) = Some
 Example ex_unescape_css : unescape true (escape_final_path true ex_name) = Some ex_name. Proof. reflexivity. Qed.
 Example ex_raw_rejected : unescape false ex_name = None. Proof. reflexivity. Qed.
 Example ex_name_bytes : Forall (fun c => 0 <= c < 256) ex_name. Proof. repeat constructor; lia. Qed.
+
+(* ---- round 2: paths ---- *)
+From V Require Import C17.WriteSM C17.PathModel C18.Paths C18.PathsProofs C18.SurviveProofs.
+(* importer chunks/a-H.js, imported deep/er/z-H.js : ../deep/er/z-H.js *)
+Definition ex_from : bytes := [99;104;117;110;107;115;47;97;45;72;46;106;115].
+Definition ex_to : bytes := [100;101;101;112;47;101;114;47;122;45;72;46;106;115].
+Example ex_dir : fs_dir ex_from = [99;104;117;110;107;115]. Proof. reflexivity. Qed.
+Example ex_between : path_between [] (fs_dir ex_from) ex_to = [46;46;47] ++ ex_to. Proof. reflexivity. Qed.
+Example ex_resolves : fs_join (fs_dir ex_from) (path_between [] (fs_dir ex_from) ex_to) = clean ex_to. Proof. reflexivity. Qed.
+Ltac plain_tac := repeat split; try discriminate; repeat constructor; unfold SL; lia.
+Example ex_plain_dir : Forall plain (clean_segs (fs_dir ex_from)).
+Proof. vm_compute. constructor; [plain_tac|constructor]. Qed.
+Example ex_plain_to : Forall plain (clean_segs ex_to).
+Proof. vm_compute. repeat (constructor; [plain_tac|]). constructor. Qed.
+Example ex_public : path_between [104;116;116;112;115;58;47;47;99;47;98] (fs_dir ex_from) ex_to =
+  [104;116;116;112;115;58;47;47;99;47;98] ++ [47] ++ ex_to. Proof. reflexivity. Qed.
+
+(* windows around the substituted path are free of the prefix *)
+Example ex_windows : windows_free ex_prefix (fun _ _ => [46;47;120;46;106;115])
+  [mkPiece [105;40] 1 2; mkPiece [41] 0 0].
+Proof.
+  constructor; [apply occ_free_occurs; [discriminate|reflexivity]|].
+  constructor; [apply occ_free_occurs; [discriminate|reflexivity]|constructor].
+Qed.
